@@ -74,6 +74,13 @@ fn products(st: &mut Stats, rng: &mut Rng, r: usize, k: usize, c: usize) {
             st.eval();
             if !matches!(catch(|| p == q), Outcome::Ok(true)) { st.violation("C03:transpose-product-identity", d()); }
         }
+        // aliasing: the same object on both sides
+        if r == k {
+            let sq = a.mul(&a);
+            expect_mat(st, "mul(&M,&M):aliased", catch(|| &am * &am), &sq, &d);
+        }
+        expect_mat(st, "add(&M,&M):aliased", catch(|| &am + &am), &DM::from_fn(r, k, |i, j| a.a[i][j] + a.a[i][j]), &d);
+        expect_mat(st, "sub(&M,&M):aliased", catch(|| &am - &am), &DM::new(r, k, Rat::ZERO), &d);
         st.count(&format!("product-shapes:{}x{}x{}", r, k, c));
         st.nontrivial(hmix(hmix(hash_str("prod"), (r * 100 + k * 10 + c) as u64), rng.u64()));
         st.sample(|| d());
